@@ -13,6 +13,6 @@ CONSTANTS
   ProdScales <- AllProdScales
   FirstSeed = TRUE
   FreshMaps = TRUE
-INVARIANTS FactoryIndependent RegOneToOne UnknownIsError NameRoundTrip ScalarInRange ScalarMonotone ScalarShape ModuleDefinition
+INVARIANTS FactoryIndependent RegOneToOne UnknownIsError NameRoundTrip ScalarInRange ScalarMonotone ScalarShape ModuleDefinition ModuleAltDefinition
 PROPERTY FactoryStepLaw
 CHECK_DEADLOCK FALSE
